@@ -40,6 +40,9 @@ type Config struct {
 	DeadlockIsFailure bool             // report a deadlock (non-daemon thread blocked forever) as a failure
 	AutoAdvance       bool
 	Secondary         bool // not shard 0: do not count the shared root execution
+	// DelayBounded: every non-default choice costs 1 (also switches at blocking points and select picks,
+	// which preemption bounding explores for free). Needed when a scenario spawns many daemon goroutines.
+	DelayBounded bool
 }
 
 type Result struct {
@@ -74,6 +77,8 @@ func Explore(cfg Config) *Result {
 	}
 	res := &Result{BoundCompleted: -1, ByPreemptions: map[int]int64{}, Outcomes: map[string]int64{}}
 	x := &explorer{cfg: cfg, res: res}
+	delayBounded = cfg.DelayBounded
+	defer func() { delayBounded = false }()
 
 	// determinism self-test: default schedule twice, identical point sequences
 	x.count = false
@@ -185,12 +190,21 @@ func sigString(m map[string]any) string {
 func preemptions(p []PointRec, upto int) int {
 	n := 0
 	for i := 0; i < upto && i < len(p); i++ {
+		if delayBounded {
+			if p[i].Chosen != 0 {
+				n++
+			}
+			continue
+		}
 		if !p[i].Step && p[i].RunningEnabled && p[i].Chosen != 0 {
 			n++
 		}
 	}
 	return n
 }
+
+// delayBounded is set for the duration of one Explore call (explorations are not concurrent within a process).
+var delayBounded bool
 
 func diffPoints(a, b []PointRec, n int) string {
 	for i := 0; i < n && i < len(a) && i < len(b); i++ {
@@ -240,7 +254,7 @@ func (x *explorer) explore(prefix []int, parent []PointRec, depth int, isNew boo
 		}
 		cost := preemptions(pts, i)
 		extra := 0
-		if !p.Step && p.RunningEnabled {
+		if x.cfg.DelayBounded || (!p.Step && p.RunningEnabled) {
 			extra = 1
 		}
 		if cost+extra > x.bound {
